@@ -1,29 +1,44 @@
 import Xrl.Core.Dump
 import Xrl.Gen.Load
 import Xrl.JCore.Proto
+import Xrl.JCore.HypCheck
 import Xrl.JGen.Dispatch
 open Xrl
 /-! Driver of the Java model (tie of tools/j2lean.py): `lake env lean --run JDriver.lean dump.bin dump.idx` answers
-protocol lines `<method> <arg>* E` with the Float reading of `Xrl.JGen.<method> (JTables.ofC T)`, `T` the dumped C tables. -/
+protocol lines `<method> <arg>* E` with the Float reading of `Xrl.JGen.<method> (JTables.ofC T)`, `T` the dumped C tables.
+`hyp.<check> Z E` runs a data hypothesis of the C19 theorems (`Xrl/JCore/HypCheck.lean`) on `T` for element `Z`: `hyp 1` / `hyp 0`. -/
 
-partial def jloop (JT : JTables Float) (h : IO.FS.Stream) (out : IO.FS.Stream) : IO Unit := do
+def hypOp (T : Tables Float) (op : String) (a : Array String) : Option String :=
+  if a.size < 1 then none else
+  let Z := pI a[0]!
+  let r (b : Bool) : Option String := some (if b then "hyp 1" else "hyp 0")
+  match op with
+  | "hyp.counts" => r (JHyp.counts T Z)
+  | "hyp.kall" => r (JHyp.kall T Z)
+  | "hyp.lgaps" => r (JHyp.lgaps T Z)
+  | "hyp.uoccup" => r (JHyp.uoccup T Z)
+  | "hyp.aw" => r (JHyp.aw T Z)
+  | _ => none
+
+partial def jloop (T : Tables Float) (JT : JTables Float) (h : IO.FS.Stream) (out : IO.FS.Stream) : IO Unit := do
   let line ← h.getLine
   if line.isEmpty then return ()
   let t := (line.trimAscii.toString.splitOn " ").toArray
-  if t.size = 0 then jloop JT h out else
-  match dispatchJGen JT t[0]! (t.extract 1 t.size) with
+  if t.size = 0 then jloop T JT h out else
+  match (if t[0]!.startsWith "hyp." then hypOp T t[0]! (t.extract 1 t.size) else dispatchJGen JT t[0]! (t.extract 1 t.size)) with
   | some s => out.putStrLn s
   | none => out.putStrLn "bad-op"
-  jloop JT h out
+  jloop T JT h out
 
 def main (argv : List String) : IO UInt32 := do
   match argv with
   | [bin, idx] =>
     let d ← readDump bin idx
-    let JT := JTables.ofC (Tables.ofDump d)
+    let T : Tables Float := Tables.ofDump d
+    let JT := JTables.ofC T
     let out ← IO.getStdout
     out.putStrLn "ready"
-    jloop JT (← IO.getStdin) out
+    jloop T JT (← IO.getStdin) out
     out.flush
     return 0
   | _ => IO.eprintln "usage: JDriver dump.bin dump.idx"; return 2
